@@ -49,7 +49,9 @@ OPAQUE = {
     "Uuid": ["0", "1", "5", "340282366920938463463374607431768211455"],
     "Decimal": ["0", "0~3", "5", "5~1", "5~2", "50", "50~1", "500", "1000000000000", "1000000000000~6"],
     "BigDecimal": ["0", "0~3", "1", "1~1", "10", "10~3", "100", "100~1", "5", "5~1", "5~2", "50", "1267650600228229401496703205376~6"],
-    "IpNetwork": ["0", "2", "1", "3", "8589934590"],
+    # (id = (2 * address [+ 1]) * 130 + p, p - 1 the prefix length: 10.1.2.3/8 and 10.9.9.9/8 share a network and
+    # differ in host bits, 10.0.0.0/8 is that network itself, 10.1.2.3/24 another prefix; the same for an IPv6 pair)
+    "IpNetwork": ["0", "260", "130", "390", "1116691496700", "43637934869", "43774717229", "43620761609", "43637934885", "2700323955594169706480247234027848135", "2700323955594169706480247234027849175"],
     "MacAddress": ["0", "1", "281474976710655"],
 }
 INTS = {
